@@ -637,7 +637,11 @@ def run_roundtrip_check(ck, fmt, pr, gen):
     for cid, d in info.items():
         P = probs[cid]
         s = d["sols"]
-        if len(s) == 2 and s[0] is not None and s[1] is not None and d["chain"][0][2] is not None and gen.empty_rows_ok(P):
+        # the hypothesis empty_ok of the oracle theorem is about the problem that was written: the dump taken after the edits
+        def rng_(v):
+            return F(0) if isinstance(v, str) else v
+        Pw = dict(d["P0"], rows=[(n_, s_, r_, (rng_(g_) if s_ == "R" and not isinstance(g_, str) else (F(10) ** 60 if isinstance(g_, str) else F(0))), e_) for (n_, s_, r_, g_, e_) in d["P0"]["rows"]])
+        if len(s) == 2 and s[0] is not None and s[1] is not None and d["chain"][0][2] is not None and gen.empty_rows_ok(P) and gen.empty_rows_ok(Pw):
             nsolved += 1
             if s[0] != s[1]:
                 fails.append((cid, "status/value differ after the round trip: %s vs %s" % (s[0], s[1]), {fmt}, d["texts"]))
